@@ -96,7 +96,11 @@ func NewFed(spec FedSpec, store Store, opts ...gateway.Option) (f *Fed, err erro
 	})
 	all := []gateway.Option{gateway.WithPlanner(&capPlanner{inner: &gateway.MinQueriesPlanner{}, fed: f}), gateway.WithQueryerFactory(&factory), gateway.WithLogger(Quiet{})}
 	if len(spec.Priorities) > 0 {
-		all = append(all, gateway.WithLocationPriorities(spec.Priorities))
+		if spec.PrioritiesFirst {
+			all = append([]gateway.Option{gateway.WithLocationPriorities(spec.Priorities)}, all...)
+		} else {
+			all = append(all, gateway.WithLocationPriorities(spec.Priorities))
+		}
 	}
 	all = append(all, opts...)
 	defer func() {
